@@ -371,11 +371,7 @@ func (ex *Exec) binop(fr *frame, st *State, reach *Term, in *ssa.BinOp) Value {
 		return Or(x, y)
 	}
 	if x.Sort == SStr && in.Op == token.ADD {
-		vc.declare("strcat", "(declare-fun strcat (Str Str) Str)")
-		vc.declare("strlen", "(declare-fun strlen (Str) Int)")
-		r := App("strcat", SStr, x, y)
-		vc.Assume(reach, Eq(App("strlen", SInt, r), App("+", SInt, App("strlen", SInt, x), App("strlen", SInt, y))))
-		return r
+		return vc.StrCat(x, y)
 	}
 	if x.Sort == SReal {
 		return ex.floatOp(fr, reach, in.Op.String(), x, y)
